@@ -9,6 +9,7 @@ overwritten the way PuLP 2.9.0's CBC adapter would report it:
   Unbounded   Unbounded     Unbounded         policy             +step
   Undefined   Undefined     NoSolutionFound   policy             +step
   NotSolved   Not Solved    NoSolutionFound   all 0 (as PuLP)    +timeLimit if set
+  NotSolvedEarly  (same, stopped for another reason: clock advances by a normal step only)
   Incumbent   Optimal       IntegerFeasible   a feasible point   +timeLimit   (needs a limit)
 
 policy in {zero, prev, true}.  A fault is transient (that solve only) or
@@ -21,17 +22,18 @@ from pulp import constants
 from . import refbackend, solverio, strategies
 from .common import HarnessError, Violation, call_repo
 
-KINDS = ['Infeasible', 'Unbounded', 'Undefined', 'NotSolved', 'Incumbent']
+KINDS = ['Infeasible', 'Unbounded', 'Undefined', 'NotSolved', 'NotSolvedEarly', 'Incumbent']
 POLICIES = ['zero', 'prev', 'true']
 STATUS = {
     'Infeasible': (constants.LpStatusInfeasible, constants.LpSolutionInfeasible),
     'Unbounded': (constants.LpStatusUnbounded, constants.LpSolutionUnbounded),
     'Undefined': (constants.LpStatusUndefined, constants.LpSolutionNoSolutionFound),
     'NotSolved': (constants.LpStatusNotSolved, constants.LpSolutionNoSolutionFound),
+    'NotSolvedEarly': (constants.LpStatusNotSolved, constants.LpSolutionNoSolutionFound),
     'Incumbent': (constants.LpStatusOptimal, constants.LpSolutionIntegerFeasible),
 }
 SHOWN = {'Infeasible': 'Infeasible', 'Unbounded': 'Unbounded', 'Undefined': 'Undefined',
-         'NotSolved': 'Not Solved', 'Incumbent': 'Optimal'}
+         'NotSolved': 'Not Solved', 'NotSolvedEarly': 'Not Solved', 'Incumbent': 'Optimal'}
 
 
 class Clock(object):
@@ -116,10 +118,12 @@ class FaultRun(object):
                 raise HarnessError('Incumbent fault without a time limit')
             self.fired.append((k, kind))
             st, sol = STATUS[kind]
-            if kind == 'NotSolved':
+            if kind in ('NotSolved', 'NotSolvedEarly'):
                 for v in vs:
                     v.varValue = 0.0
-                if self.time_limit is not None:
+                # NotSolvedEarly: CBC "Stopped" for another reason than the time limit
+                # (iteration / node limit, interrupt): same status, clock not advanced
+                if kind == 'NotSolved' and self.time_limit is not None:
                     self.clock.advance(self.time_limit)
             elif kind == 'Incumbent':
                 # a feasible, possibly non-optimal point when the enumeration has one
